@@ -56,6 +56,18 @@ def tkind(t):
     return t[0]
 
 
+# callee suffix -> (steps under which the closure's return value sits in the result, variant step that passes through from the receiver)
+MAPPING = {
+    # suffix: (steps under which the closure's return value sits in the result, steps selecting the closure's argument from the receiver, pass-through variant)
+    'Option::map': ((('v', 'Some'), ('f', 0)), (('v', 'Some'), ('f', 0)), None),
+    'Result::map': ((('v', 'Ok'), ('f', 0)), (('v', 'Ok'), ('f', 0)), ('v', 'Err')),
+    'Poll::map': ((('v', 'Ready'), ('f', 0)), (('v', 'Ready'), ('f', 0)), None),
+    'Option::and_then': ((), (('v', 'Some'), ('f', 0)), None),
+    'Result::and_then': ((), (('v', 'Ok'), ('f', 0)), ('v', 'Err')),
+    'Result::or_else': ((), (('v', 'Err'), ('f', 0)), ('v', 'Ok')),
+}
+
+
 def const_int(t):
     """integer value of a ('const', ty, text, fn) term, else None"""
     import re
@@ -468,6 +480,9 @@ class Prov:
             return ('bound', t, callee_id, tuple(args))
         if k == 'with':
             return ('with', self.subst(t[1], callee_id, args), tuple((n, self.subst(v, callee_id, args)) for n, v in t[2]))
+        if k == 'bound':
+            # a site of a callee inlined one level further down: its binding mentions this callee's parameters
+            return ('bound', t[1], t[2], tuple(self.subst(a, callee_id, args) for a in t[3]))
         return t
 
     def args_of(self, t):
@@ -572,6 +587,66 @@ class Prov:
                     tag = None
                     out.append((t, path))
                     return
+            if tag is None and name and 'mapping' not in self.stop_tags:
+                # value-mapping combinators with a closure: the payload of the result is what the closure returns (with the closure's parameter bound to
+                # the receiver's payload, in this calling context); the other variant passes through from the receiver
+                mp = None
+                for suf, spec in MAPPING.items():
+                    if name == suf or name.endswith('::' + suf):
+                        mp = spec
+                        break
+                if mp is not None and path:
+                    on_steps, param_steps, passes = mp
+                    args = self.args_of(t)
+
+                    def consume(pth, steps):
+                        # match value-level steps at the front of the path, carrying transparent steps over to the remainder
+                        carried, k2, i2 = [], 0, 0
+                        while k2 < len(steps) and i2 < len(pth):
+                            if pth[i2][0] == 't':
+                                carried.append(pth[i2])
+                            elif pth[i2] == steps[k2]:
+                                k2 += 1
+                            else:
+                                return None
+                            i2 += 1
+                        if k2 < len(steps):
+                            return None
+                        return tuple(carried) + tuple(pth[i2:])
+
+                    def first_value_step(pth):
+                        for st in pth:
+                            if st[0] != 't':
+                                return st
+                        return None
+
+                    def payload_of(recv):
+                        for st in param_steps:
+                            recv = self._variant(recv, st[1]) if st[0] == 'v' else self._field(recv, st[1])
+                        return recv
+                    body, ctor = None, None
+                    if len(args) > 1:
+                        for cr, _cp in self._roots_nested(args[1]):
+                            cu = self.unbound(cr)
+                            if cu[0] == 'agg' and self._agg_rv(cu)['adt'] == 'closure':
+                                body = self.F.fns.get(self._agg_rv(cu)['adt_id'])
+                            if cr[0] == 'const' and len(cr) > 3 and cr[3] and str(cr[3]).split('::')[-1] in ('Ok', 'Err', 'Some', 'Ready'):
+                                ctor = str(cr[3]).split('::')[-1]
+                    if passes and first_value_step(path) == passes and (body is not None or ctor is not None):
+                        self._root(args[0], path, depth - 1, out)
+                        return
+                    if body is None and ctor is not None and on_steps:
+                        # a variant constructor used as the mapping function: `opt.map(Ok)`
+                        rest = consume(path, on_steps + (('v', ctor), ('f', 0)))
+                        if rest is not None:
+                            self._root(payload_of(args[0]), rest, depth - 1, out)
+                            return
+                    if body is not None:
+                        ret = self.subst(self._local_whole(body, 0), body.id, [('param', body.id, 1), payload_of(args[0])])
+                        rest = consume(path, on_steps)
+                        if rest is not None and (on_steps or first_value_step(path) != passes):
+                            self._root(ret, rest, depth - 1, out)
+                            return
             if tag == 'try':
                 args = self.args_of(t)
                 if args and len(path) >= 2 and path[0][0] == 'v' and path[1] == ('f', 0):
